@@ -195,6 +195,12 @@ func (c *LRUCache) Set(key string, value interface{}, ttl time.Duration) error {
 		Size:       size,
 	}
 
+	// An entry that can never fit is rejected instead of evicting forever -
+	// also when it is to replace the value of a key that is cached already
+	if c.capacity <= 0 || (c.maxSize > 0 && size > c.maxSize) {
+		return fmt.Errorf("cache: entry %q does not fit (capacity %d, max size %d bytes)", key, c.capacity, c.maxSize)
+	}
+
 	// Check if key already exists
 	if elem, ok := c.items[key]; ok {
 		c.evictList.MoveToFront(elem)
@@ -202,13 +208,9 @@ func (c *LRUCache) Set(key string, value interface{}, ttl time.Duration) error {
 		c.currentSize -= oldEntry.Size
 		c.currentSize += size
 		elem.Value = entry
+		c.evictUntilWithinSize()
 		atomic.AddUint64(&c.stats.Sets, 1)
 		return nil
-	}
-
-	// An entry that can never fit is rejected instead of evicting forever
-	if c.capacity <= 0 || (c.maxSize > 0 && size > c.maxSize) {
-		return fmt.Errorf("cache: entry %q does not fit (capacity %d, max size %d bytes)", key, c.capacity, c.maxSize)
 	}
 
 	// Evict if necessary; stop once nothing is left to evict
@@ -224,6 +226,15 @@ func (c *LRUCache) Set(key string, value interface{}, ttl time.Duration) error {
 	atomic.AddInt64(&c.stats.EntryCount, 1)
 
 	return nil
+}
+
+// evictUntilWithinSize evicts least recently used entries while the cache is
+// over its byte limit; the most recently used entry (the one just written, which
+// fits on its own) is never evicted. The caller holds c.mu.
+func (c *LRUCache) evictUntilWithinSize() {
+	for c.maxSize > 0 && c.currentSize > c.maxSize && c.evictList.Len() > 1 {
+		c.evictOldest()
+	}
 }
 
 // SetWithTags adds a value with tags for grouped invalidation
@@ -252,17 +263,18 @@ func (c *LRUCache) SetWithTags(key string, value interface{}, ttl time.Duration,
 		Tags:       tags,
 	}
 
+	if c.capacity <= 0 || (c.maxSize > 0 && size > c.maxSize) {
+		return fmt.Errorf("cache: entry %q does not fit (capacity %d, max size %d bytes)", key, c.capacity, c.maxSize)
+	}
+
 	if elem, ok := c.items[key]; ok {
 		c.evictList.MoveToFront(elem)
 		oldEntry := elem.Value.(*Entry)
 		c.currentSize -= oldEntry.Size
 		c.currentSize += size
 		elem.Value = entry
+		c.evictUntilWithinSize()
 		return nil
-	}
-
-	if c.capacity <= 0 || (c.maxSize > 0 && size > c.maxSize) {
-		return fmt.Errorf("cache: entry %q does not fit (capacity %d, max size %d bytes)", key, c.capacity, c.maxSize)
 	}
 
 	for c.evictList.Len() > 0 && (c.evictList.Len() >= c.capacity || (c.maxSize > 0 && c.currentSize+size > c.maxSize)) {
